@@ -333,9 +333,10 @@ def run_case(prog, res=None, model=None):
     return None
 
 
-def learn_case(prog):
+def learn_case(prog, judge=None):
     """prog: {"learn": cfg, "script": RNG answers}.  Runs the real learn() and applies the forest
-    oracle to the classifier it leaves, with distances taken between the samples its nodes hold."""
+    oracle (or `judge`) to the classifier it leaves, with distances taken between the samples its
+    nodes hold."""
     import numpy as np
     from mc import seams
     from mc.props import c17
@@ -359,8 +360,10 @@ def learn_case(prog):
     n = len(feats)
     Wd = [[float(o.distance_fn(feats[a].copy(), feats[b].copy())) if a != b else 0.0 for b in range(n)]
           for a in range(n)]
-    M = F.minimax_closure(Wd)
     labels = [nd["label"] for nd in obs["nodes"]]
+    if judge is not None:
+        return ch, judge(prog, obs, Wd, labels, o)
+    M = F.minimax_closure(Wd)
 
     def oracle(_, S):
         return [0.0 if t in S else min(M[s][t] for s in S) for t in range(n)]
@@ -384,7 +387,7 @@ def _key(prog):
     return sup.cache_key(prog) if prog["model"] in ("SupervisedOPF", "SemiSupervisedOPF") else None
 
 
-def run_learn(shard, seed, res):
+def run_learn(shard, seed, res, judge=None):
     from mc.explore import explore
     from mc.props import c17
     for cfg in c17.learn_configs(3, shard[1], seed):
@@ -393,7 +396,7 @@ def run_learn(shard, seed, res):
         def execute(ch):
             prog = {"learn": cfg, "script": list(ch.script)}
             with horizon(20.0):
-                ch2, v = learn_case_with(ch, cfg)
+                ch2, v = learn_case_with(ch, cfg, judge)
             res.transitions += 1
             if v:
                 v["program"] = {"learn": cfg, "script": [c for _, c in ch.points]}
@@ -413,13 +416,13 @@ def run_learn(shard, seed, res):
     return res
 
 
-def learn_case_with(ch, cfg):
+def learn_case_with(ch, cfg, judge=None):
     # learn_case builds its own chooser from a script; here the explorer's chooser is used directly
     from mc import seams
     orig = seams.Chooser
     try:
         seams.Chooser = lambda script, default=0: ch
-        return learn_case({"learn": cfg, "script": []})
+        return learn_case({"learn": cfg, "script": []}, judge)
     finally:
         seams.Chooser = orig
 
@@ -448,8 +451,7 @@ def run(shard, seed):
         k += 1
         if v:
             prev = _PREV.get(_key(prog)) if _key(prog) is not None else None
-            if prev is not None and "previous" not in v["program"]:
-                v["program"] = dict(v["program"], previous=prev)
+            sup.with_history(v, prev)
             res.violations.append(v)
             if res.full:
                 break
@@ -461,16 +463,40 @@ def run(shard, seed):
             last = prog
             break
         if last is not None:
-            m1, _ = sup.fit_program(last)
-            m2, _ = sup.fit_program(last, fresh=True)
+            hist = sup.construction_history()
+            prev = _PREV.get(_key(last)) if _key(last) is not None else None
+            v = fresh_vs_used(last)
             res.transitions += 2
-            if sup.observe(m1) != sup.observe(m2):
-                res.violations.append(viol(last, "a re-used model object gives a different "
-                                           "forest than a fresh one", "stale state"))
+            if v:
+                v["program"] = dict(last, compare_fresh=True, constructed_before=hist)
+                if prev is not None:
+                    v["program"]["previous"] = prev
+                res.violations.append(v)
     return res
+
+
+def fresh_vs_used(prog):
+    m1, _ = sup.fit_program(prog)
+    m2, _ = sup.fit_program(prog, fresh=True)
+    if sup.observe(m1) != sup.observe(m2):
+        return viol(prog, "a re-used model object gives a different forest than a fresh one", "stale state")
+    return None
 
 
 def replay(case):
     if "learn" in case["program"]:
         return learn_case(case["program"])[1]
-    return sup.replay_with_history(run_case, case["program"])
+    p = case["program"]
+    if p.get("compare_fresh"):
+        cur = {k: v for k, v in p.items() if k not in ("compare_fresh", "constructed_before", "previous")}
+        sup.rebuild_history(p.get("constructed_before") or [])
+        if p.get("previous"):
+            try:
+                sup.fit_program({k: v for k, v in p["previous"].items() if k != "previous"})
+            except Exception:
+                pass
+        v = fresh_vs_used(cur)
+        if v:
+            v["program"] = p
+        return v
+    return sup.replay_with_history(run_case, p)
